@@ -14,14 +14,14 @@ STATIC = {
 PROPS = {
     "C01": dict(
         title="Civil calendar facts are exactly the proleptic Gregorian calendar",
-        verus=["itime", ("itime", "_static", STATIC)],
+        verus=["itime", ("itime", "_static", STATIC), "kspec"],
         kani_quick=["c01_civil"],
         kani_thorough=[],
         design_ref="DESIGN.md section 4, C01",
     ),
     "C02": dict(
         title="Instant <-> civil datetime under a fixed offset is exact and invertible",
-        verus=["itime", ("itime", "_static", STATIC)],
+        verus=["itime", ("itime", "_static", STATIC), "kspec"],
         kani_quick=["c02_wrappers"],
         kani_thorough=[],
         design_ref="DESIGN.md section 4, C02",
@@ -115,7 +115,7 @@ PROPS = {
     ),
     "C16": dict(
         title="strftime/strptime and RFC 2822 agree with the calendar and invert each other",
-        verus=[],
+        verus=["kspec"],
         kani_quick=["c16_strftime"], kani_thorough=[],
         design_ref="DESIGN.md section 4, C16",
         level_text="Calendar-fact part only: through the real Formatter methods into a fixed buffer, for ALL dates (Neri-Schneider callee replaced by its Verus-proved contract as axiomatised memo stub) %j, %U, %W, %u, %w print the value the C library defines with the documented padding, and %z / %:z print sign/HH/MM[/SS] of every offset (sign correct also below one hour). strptime inversion, multi-specifier formats, locale names and RFC 2822 are NOT decided.",
